@@ -82,58 +82,77 @@ structure RdOut where
   bytes : Bytes
 deriving Repr, DecidableEq
 
-/-- the `while(dc < dst_size)` loop of `comp_read`.  `out` = bytes copied so far. -/
+/-- outcome of one iteration of the `while(dc < dst_size)` loop of `comp_read` -/
+inductive Step where
+  | done (r : RdOut) (c : Ctx)                    -- the call returns
+  | cont (c : Ctx) (out : Bytes) (fin : Bool)     -- next iteration
+
+/-- first chunk of the stream: the first index entry, or the second when the first is an empty dictionary -/
+def firstIdx (h : Hdr) : Option Nat :=
+  match h.chunks.head? with
+  | some ch => if ch.compLen = 0 ∧ ch.len = 0 then (if 1 < h.chunks.length then some 1 else none) else some 0
+  | none => none
+
+/-- make sure the chunk checksum context exists (`if(zck->check_chunk_hash.ctx == NULL) hash_init`) -/
+def ensureHash (c : Ctx) : Ctx := if c.chunkHash.isNone then { c with chunkHash := some [] } else c
+
+/-- feed the whole-data checksum unless the uncompressed-source flag is set -/
+def updFull (c : Ctx) (src : Bytes) : Ctx := if flag4 c then c else { c with fullHash := hashUpd c.fullHash src }
+
+/-- the read part of an iteration: pull at most `n` bytes of the current chunk from the file -/
+def stepRead (f : Bytes) (n : Nat) (c : Ctx) (ch : Chunk) (out : Bytes) : Step :=
+  let rs := if c.dataLoc + n > ch.compLen then ch.compLen - c.dataLoc else n
+  let src := fileRead f c.pos rs
+  let c1 := ensureHash { c with pos := c.pos + src.length }
+  -- hash_update with a zero length and a non-NULL pointer is an error
+  if src.length = 0 then .done ⟨-1, out⟩ { c1 with err := true } else
+  let c2 := updFull c1 src
+  if ¬ flag4 c2 ∧ c2.fullHash.isNone then .done ⟨-1, out⟩ { c2 with err := true } else
+  .cont { c2 with chunkHash := hashUpd c2.chunkHash src, data := c2.data ++ src, dataLoc := c2.dataLoc + src.length }
+    out (decide (src.length < rs))
+
+/-- the chunk-end part of an iteration -/
+def stepEnd (H : HashFn) (D : Decomp) (c : Ctx) (ki : Nat) (ch : Chunk) (useDict : Bool) (out : Bytes) (fin : Bool) : Step :=
+  match endDchunk H D c ki ch useDict with
+  | .fail => .done ⟨-1, out⟩ { c with err := true, dc := [] }
+  | .badSum => .done ⟨-1, out⟩ { c with err := true, dc := [], valid := setValid c.valid ki (-1) }
+  | .ok c2 => .cont (if c2.dataIdx.isNone then { c2 with dataEof := true } else c2) out fin
+
+/-- one iteration of the `while(dc < dst_size)` loop of `comp_read`.  `out` = bytes copied so far. -/
+def step (H : HashFn) (D : Decomp) (f : Bytes) (n : Nat) (useDict : Bool) (c : Ctx) (out : Bytes) (finishedRd : Bool) : Step :=
+  if out.length ≥ n then .done ⟨out.length, out⟩ c else
+  -- comp_read_from_dc (VALIDATE_INT: a context in error state yields -1)
+  if c.err then .done ⟨-1, out⟩ c else
+  let k := min (n - out.length) c.dc.length
+  let out' := out ++ c.dc.take k
+  let c := { c with dc := c.dc.drop k }
+  if out'.length = n then .done ⟨n, out'⟩ c else
+  if k > 0 then .cont c out' finishedRd else
+  if c.dataEof then .done ⟨out'.length, out'⟩ c else
+  -- comp.decompress: "none" moves the pending stored bytes to the output buffer, zstd waits for the chunk end
+  if c.hdr.compType = 0 ∧ c.data ≠ [] then .cont { c with dc := c.dc ++ c.data, data := [] } out' finishedRd else
+  -- start of the stream: first chunk, skipping an empty dictionary entry
+  match c.dataIdx with
+  | none =>
+    (match firstIdx c.hdr with
+     | none => .done ⟨0, out'⟩ { c with dataIdx := none, chunkHash := some [] }
+     | some i => .cont { c with dataIdx := some i, chunkHash := some [] } out' finishedRd)
+  | some ki =>
+    match chunkAt c ki with
+    | none => .done ⟨-1, out'⟩ { c with err := true }
+    | some ch =>
+      if c.dataLoc = ch.compLen then stepEnd H D c ki ch useDict out' finishedRd
+      else if finishedRd then .done ⟨-1, out'⟩ { c with err := true }      -- file ended inside a chunk
+      else stepRead f n c ch out'
+
+/-- the loop, with a fuel bound (never exhausted for `fuelFor`, see the driver's counters) -/
 def readLoop (H : HashFn) (D : Decomp) (f : Bytes) (n : Nat) (useDict : Bool) :
     Nat → Ctx → Bytes → Bool → RdOut × Ctx
-  | 0, c, out, _ => (⟨-3, out⟩, c)                        -- out of fuel (unreachable, see fuel bound)
-  | fuel + 1, c, out, finishedRd =>
-    if out.length ≥ n then (⟨out.length, out⟩, c) else
-    -- comp_read_from_dc (VALIDATE_INT: a context in error state yields -1)
-    if c.err then (⟨-1, out⟩, c) else
-    let k := min (n - out.length) c.dc.length
-    let out' := out ++ c.dc.take k
-    let c := { c with dc := c.dc.drop k }
-    if out'.length = n then (⟨n, out'⟩, c) else
-    if k > 0 then readLoop H D f n useDict fuel c out' finishedRd else
-    if c.dataEof then (⟨out'.length, out'⟩, c) else
-    -- comp.decompress: "none" moves the pending stored bytes to the output buffer, zstd waits for the chunk end
-    if c.hdr.compType = 0 ∧ c.data ≠ [] then
-      readLoop H D f n useDict fuel { c with dc := c.dc ++ c.data, data := [] } out' finishedRd
-    else
-    -- start of the stream: first chunk, skipping an empty dictionary entry
-    match c.dataIdx with
-    | none =>
-      let first := match c.hdr.chunks.head? with
-        | some ch => if ch.compLen = 0 ∧ ch.len = 0 then (if 1 < c.hdr.chunks.length then some 1 else none) else some 0
-        | none => none
-      let c := { c with dataIdx := first, chunkHash := some [] }
-      (match first with
-       | none => (⟨0, out'⟩, c)
-       | some _ => readLoop H D f n useDict fuel c out' finishedRd)
-    | some ki =>
-      match chunkAt c ki with
-      | none => (⟨-1, out'⟩, { c with err := true })
-      | some ch =>
-        if c.dataLoc = ch.compLen then
-          match endDchunk H D c ki ch useDict with
-          | .fail => (⟨-1, out'⟩, { c with err := true, dc := [] })
-          | .badSum => (⟨-1, out'⟩, { c with err := true, dc := [], valid := setValid c.valid ki (-1) })
-          | .ok c2 =>
-            let c2 := if c2.dataIdx.isNone then { c2 with dataEof := true } else c2
-            readLoop H D f n useDict fuel c2 out' finishedRd
-        else if finishedRd then (⟨-1, out'⟩, { c with err := true })      -- file ended inside a chunk
-        else
-          let rs := if c.dataLoc + n > ch.compLen then ch.compLen - c.dataLoc else n
-          let src := fileRead f c.pos rs
-          let c := { c with pos := c.pos + src.length }
-          let fin := decide (src.length < rs)
-          let c := if c.chunkHash.isNone then { c with chunkHash := some [] } else c
-          -- hash_update with a zero length and a non-NULL pointer is an error
-          if src.length = 0 then (⟨-1, out'⟩, { c with err := true }) else
-          let c := if flag4 c then c else { c with fullHash := hashUpd c.fullHash src }
-          if ¬ flag4 c ∧ c.fullHash.isNone then (⟨-1, out'⟩, { c with err := true }) else
-          let c := { c with chunkHash := hashUpd c.chunkHash src, data := c.data ++ src, dataLoc := c.dataLoc + src.length }
-          readLoop H D f n useDict fuel c out' fin
+  | 0, c, out, _ => (⟨-3, out⟩, c)
+  | fuel + 1, c, out, fin =>
+    match step H D f n useDict c out fin with
+    | .done r c' => (r, c')
+    | .cont c' out' fin' => readLoop H D f n useDict fuel c' out' fin'
 
 def fuelFor (f : Bytes) (c : Ctx) (n : Nat) : Nat := 2 * f.length + 4 * c.hdr.chunks.length + 2 * n + 16
 
